@@ -72,6 +72,8 @@ func (o cOp) String() string {
 		return fmt.Sprintf("READDIRPLUS %s", d[o.Dir])
 	case "sweep":
 		return "GETATTR of every extra file"
+	case "createlong":
+		return fmt.Sprintf("CREATE %s/<300-byte name>", d[o.Dir])
 	case "writeh":
 		return fmt.Sprintf("WRITE fh=%x off=%d len=%d tag=%x stable=%d", trimBytes([]byte(o.H), 16), o.Off, len(o.Data), tagOf([]byte(o.Data)), o.Stable)
 	case "readh":
@@ -218,6 +220,8 @@ func cStep(s cState, o cOp, r cRes) (bool, cState) {
 			n.HFiles[r.Handle] = cFile{}
 		}
 		return true, n
+	case "createlong":
+		return !r.OK, s // a name beyond the limit: refused, nothing changes
 	case "remove", "rmdir":
 		h, exists := s.Names[o.Dir][o.Name]
 		want := exists && (o.Kind == "remove" || isDirName(o.Name))
@@ -407,6 +411,7 @@ type cWorld struct {
 	Init     cState
 	Extra    []nt.Nfs_fh3 // further files in the root that the programs only look at (a working set larger than the inode cache)
 	deepDirs [2]nt.Nfs_fh3 // TestC04RenameCycle: D0/x and D1/x
+	ExtraIDs []uint64      // file ids of the extra files, as CREATE reported them
 }
 
 // addExtras creates n more files in the root; a "sweep" operation looks at all of them.
@@ -420,6 +425,7 @@ func (w *cWorld) addExtras(n int) error {
 			return fmt.Errorf("create %s: %d", name, r.Status)
 		}
 		w.Extra = append(w.Extra, r.Resok.Obj.Handle)
+		w.ExtraIDs = append(w.ExtraIDs, uint64(r.Resok.Obj_attributes.Attributes.Fileid))
 		fixed = append(fixed, name)
 	}
 	w.Init.Fixed = fixed
@@ -489,6 +495,9 @@ func (w *cWorld) exec(api API, o cOp) cRes {
 	case "create":
 		r := api.NFSPROC3_CREATE(nt.CREATE3args{Where: dop})
 		return cRes{OK: r.Status == nt.NFS3_OK, Handle: string(r.Resok.Obj.Handle.Data), Fileid: uint64(r.Resok.Obj_attributes.Attributes.Fileid)}
+	case "createlong":
+		r := api.NFSPROC3_CREATE(nt.CREATE3args{Where: nt.Diropargs3{Dir: w.Dirs[o.Dir], Name: nt.Filename3(strings.Repeat("L", 300))}})
+		return cRes{OK: r.Status == nt.NFS3_OK}
 	case "mkdir":
 		r := api.NFSPROC3_MKDIR(nt.MKDIR3args{Where: dop})
 		return cRes{OK: r.Status == nt.NFS3_OK, Handle: string(r.Resok.Obj.Handle.Data), Fileid: uint64(r.Resok.Obj_attributes.Attributes.Fileid)}
@@ -533,8 +542,10 @@ func (w *cWorld) exec(api API, o cOp) cRes {
 		// every extra file once, starting at a position of the operation's choosing (clients walk in different phases)
 		ok := true
 		for i := range w.Extra {
-			h := w.Extra[(i+int(o.Off))%len(w.Extra)]
-			if api.NFSPROC3_GETATTR(nt.GETATTR3args{Object: h}).Status != nt.NFS3_OK {
+			k := (i + int(o.Off)) % len(w.Extra)
+			// the handle answers, and with the object it was issued for (nobody changes these files)
+			r := api.NFSPROC3_GETATTR(nt.GETATTR3args{Object: w.Extra[k]})
+			if r.Status != nt.NFS3_OK || uint64(r.Resok.Obj_attributes.Fileid) != w.ExtraIDs[k] || r.Resok.Obj_attributes.Size != 0 || r.Resok.Obj_attributes.Ftype != nt.NF3REG {
 				ok = false
 			}
 		}
